@@ -44,6 +44,9 @@ def matmul_forward(a:np.ndarray, b:np.ndarray):
     return a @ b
 
 def matmul_backward(grad:np.ndarray, a:np.ndarray, b:np.ndarray):
+    if a.ndim == 1: # vector @ matrix
+        grad_a, grad_b = matmul_backward(np.expand_dims(grad, -2), a[None, :], b)
+        return grad_a[0], grad_b
     grad_a = grad @ np.swapaxes(b, -2, -1)
     grad_b = np.swapaxes(a, -2, -1) @ grad
     return unbroadcast(grad_a, a.shape), unbroadcast(grad_b, b.shape)
@@ -53,7 +56,7 @@ def addmm_forward(a:np.ndarray, b:np.ndarray, c:np.ndarray):
     return a + (b @ c)
 
 def addmm_backward(grad:np.ndarray, a:np.ndarray, b:np.ndarray, c:np.ndarray):
-    mm_shape = np.broadcast_shapes(b.shape[:-2], c.shape[:-2]) + (b.shape[-2], c.shape[-1])
+    mm_shape = np.broadcast_shapes(b.shape[:-2], c.shape[:-2]) + b.shape[-2:-1] + c.shape[-1:]
     grad_a, grad_mm = add_backward(grad, a.shape, mm_shape)
     grad_b, grad_c = matmul_backward(grad_mm, b, c)
     return grad_a, grad_b, grad_c
